@@ -110,6 +110,7 @@ func c12Faults(c *core.Ctx, src string, report func(fault, corrupted string, int
 }
 
 func c12Run(c *core.Ctx) {
+	nValid := 0
 	seen := func(fault, orig string) func(string, string, int) {
 		return nil
 	}
@@ -164,7 +165,7 @@ func c12Run(c *core.Ctx) {
 				}
 				c.Inc("valid_programs")
 				handle(src, L)
-				if c.Count0()%70001 == 0 {
+				if nValid++; nValid%997 == 1 {
 					c.Sample(src)
 				}
 			}
